@@ -16,7 +16,7 @@ import sys
 import z3
 
 from . import vtypes as T
-from .vtypes import Ty, INT, BOOL, STR, NONE, FLOAT, OPAQUE
+from .vtypes import Ty, INT, BOOL, STR, NONE, FLOAT, OPAQUE, CFG
 
 sys.setrecursionlimit(20000)
 
@@ -141,6 +141,8 @@ def truthy(sv):
         return dt.is_some(sv.z)
     if t.kind == 'ref' or t.kind == 'opaque':
         return z3.BoolVal(True)
+    if t.kind == 'cfg':
+        return z3.Function('cfg_truthy', z3.IntSort(), z3.BoolSort())(sv.z)
     raise VCError(f'truthiness of {t!r} needs the heap')
 
 
@@ -364,6 +366,16 @@ class Executor:
         if ty.kind == 'ref' and s.kind == 'ref':
             if self.repo.is_subclass(s.args[0], ty.args[0]) or self.repo.is_subclass(ty.args[0], s.args[0]):
                 return SV(ty, sv.z)
+        if s.kind == 'cfg' or (s.kind == 'opt' and s.args[0].kind == 'cfg'):
+            # a configuration node used as a scalar / container: what the YAML holds there (trusted typing)
+            if ty.kind == 'int':
+                return SV(INT, self.uf('cfg_int', z3.IntSort(), z3.IntSort())(sv.z))
+            if ty.kind == 'str':
+                return SV(STR, self.uf('cfg_str', z3.IntSort(), z3.StringSort())(sv.z))
+            if ty.kind == 'bool':
+                return SV(BOOL, self.uf('cfg_bool', z3.IntSort(), z3.BoolSort())(sv.z))
+            if ty.kind in ('dict', 'list', 'set', 'cfg'):
+                return SV(ty, sv.z)
         if ty.kind == 'opaque' or s.kind == 'opaque':
             if T.sort_of(ty) == z3.IntSort() and (sv.z is not None and sv.z.sort() == z3.IntSort()):
                 return SV(ty, sv.z)
@@ -383,7 +395,7 @@ class Executor:
             subs = sorted(self.repo.subclasses.get(t.args[0].args[0], ()))
             ids = [self.repo.class_ids[c] for c in subs]
             return [sv.z >= 0, z3.Or([sv.z == 0] + [self.clsof(sv.z) == i for i in ids])]
-        if t.kind in ('list', 'dict', 'set', 'opaque'):
+        if t.kind in ('list', 'dict', 'set', 'opaque', 'cfg'):
             return [sv.z > 0]
         if t.kind == 'opt' and T.is_reflike(t.args[0]):
             return [sv.z >= 0]
@@ -554,6 +566,9 @@ class Executor:
             return self.list_len(st, v), (lambda i: self.select(a, i))
         if v.ty.kind in ('seq',):
             return z3.Length(v.z), (lambda i: v.z[i])
+        if v.ty.kind == 'cfg':
+            it = self.uf('cfg_item', z3.IntSort(), z3.IntSort(), z3.IntSort())
+            return self.uf('cfg_len', z3.IntSort(), z3.IntSort())(v.z), (lambda i: it(v.z, i))
         raise VCError(f'not a sequence: {v.ty!r}')
 
     def empty_arr(self, ety):
@@ -941,6 +956,10 @@ class Executor:
             return z3.And(dt.is_some(a.z), self.eq(st, SV(ta.args[0], dt.val(a.z)), b))
         if tb.kind == 'opt' and ta.kind != 'opt':
             return self.eq(st, b, a)
+        if ta.kind == 'cfg' and tb.kind in ('int', 'str', 'bool'):
+            return self.coerce(a, tb).z == b.z
+        if tb.kind == 'cfg' and ta.kind in ('int', 'str', 'bool'):
+            return self.coerce(b, ta).z == a.z
         if ta.kind == 'bool' and tb.kind == 'bool':
             return a.z == b.z
         if ta.kind in ('int', 'bool', 'enum') and tb.kind in ('int', 'bool', 'enum'):
@@ -1023,6 +1042,10 @@ class Executor:
             return z3.Select(self.dict_dom(st, coll), self.coerce(x, t.args[0]).z)
         if t.kind == 'set':
             return z3.Select(self.set_content(st, coll), self.coerce(x, t.args[0]).z)
+        if t.kind == 'cfg':
+            if x.ty.kind != 'str':
+                raise VCError('`in` on a configuration node with a non-string key')
+            return self.uf('cfg_has', z3.IntSort(), z3.StringSort(), z3.BoolSort())(coll.z, x.z)
         if t.kind == 'mset':
             return z3.Select(coll.z, self.coerce(x, t.args[0]).z)
         if t.kind == 'map':
@@ -1191,11 +1214,23 @@ class Executor:
             def cont(s):
                 return k(s, SV(t.args[1], z3.Select(self.dict_val(s, base), key.z)))
             return self.guard_raise(st, cx, z3.Not(present), 'KeyError', node, cont, why=ast.unparse(node))
+        if t.kind == 'cfg':
+            if idx.ty.kind == 'str':
+                has = self.uf('cfg_has', z3.IntSort(), z3.StringSort(), z3.BoolSort())(base.z, idx.z)
+                get = self.uf('cfg_get', z3.IntSort(), z3.StringSort(), z3.IntSort())(base.z, idx.z)
+                return self.guard_raise(st, cx, z3.Not(has), 'KeyError', node, lambda s: k(s, SV(CFG, get)),
+                                        why=ast.unparse(node))
+            i = self.coerce(idx, INT).z
+            n = self.uf('cfg_len', z3.IntSort(), z3.IntSort())(base.z)
+            item = self.uf('cfg_item', z3.IntSort(), z3.IntSort(), z3.IntSort())(base.z, i)
+            return self.guard_raise(st, cx, z3.Or(i < 0, i >= n), 'IndexError', node, lambda s: k(s, SV(CFG, item)),
+                                    why=ast.unparse(node))
         if t.kind == 'map':
             key = self.coerce(idx, t.args[0])
             return k(st, SV(t.args[1], z3.Select(base.z, key.z)))
         if t.kind == 'arr':
-            return k(st, SV(t.args[0], self.select(base.z, self.coerce(idx, INT).z)))
+            iz = idx.z if idx.z is not None and idx.z.sort() == z3.IntSort() else self.coerce(idx, INT).z
+            return k(st, SV(t.args[0], self.select(base.z, iz)))
         if t.kind == 'tuple':
             isimp = z3.simplify(idx.z)
             if z3.is_int_value(isimp):
